@@ -278,10 +278,23 @@ class Env:
         return m
 
     def observe(self):
-        return dict(dir=self.dir_image(), q=self.queries(), mem=self.memory())
+        """never raises: a query that blows up is itself an observation"""
+        out = {}
+        for name, fn in (('dir', self.dir_image), ('q', self.queries), ('mem', self.memory)):
+            try:
+                out[name] = fn()
+            except Exception as e:
+                out[name] = {'<exception>': '%s: %s' % (type(e).__name__, str(e)[:100])}
+        return out
 
     # ---- canonical observation comparable with the model's `obs` line -----------------------
     def obs_string(self):
+        try:
+            return self._obs_string()
+        except Exception as e:
+            return 'obs-failed:%s' % type(e).__name__
+
+    def _obs_string(self):
         if self.fs is not None:
             s = self._file_obs(self.fs)
         else:
